@@ -134,6 +134,7 @@ Definition split_status (status : str) : option (N * str) :=
   end.
 
 Definition COLON : N := 58.
+(* spec side: a header line *)
 Definition header_line (kv : str * str) : bytes := fst kv ++ [COLON; SP] ++ snd kv ++ CRLF.
 
 Definition chunk_frame (chunked : bool) (data : bytes) : bytes :=
@@ -154,17 +155,28 @@ Definition date_name : str := [68; 97; 116; 101].                (* Date *)
 Definition response_body (chunked : bool) (pieces : list bytes) : bytes :=
   concat (map (chunk_frame chunked) pieces) ++ (if chunked then final_chunk else []).
 
+(* one item of the emission plan generated from run_wsgi.write (head_plan); the formats and the
+   default headers are those of http.server's send_response_only / send_header / end_headers *)
+Definition default_value (server date : str) (name : str) : str :=
+  if list_eqb name server_name then server else date.
+Definition emit_item (proto server date : str) (code : N) (msg : str) (headers : list (str * str))
+                     (chunked : bool) (it : hitem) : bytes :=
+  match it with
+  | PStatus => fmt status_line_fmt [proto; dec_of_N code; msg]
+               ++ concat (map (fun n => fmt header_fmt [n; default_value server date n]) default_headers)
+  | PAppHeaders => concat (map (fun kv => fmt header_fmt [fst kv; snd kv]) headers)
+  | PIfChunked k v => if chunked then fmt header_fmt [k; v] else []
+  | PHeader k v => fmt header_fmt [k; v]
+  | PEnd => end_headers_bytes
+  end.
+
 (* interim response, status line and header block *)
 Definition response_head (proto : str) (expect : option str) (server date : str) (code : N) (msg : str)
                          (headers : list (str * str)) (chunked : bool) : bytes :=
   (match expect with
    | Some v => if list_eqb (strip uni_ws (lower v)) expect_value then continue_bytes else []
    | None => [] end)
-  ++ proto ++ [SP] ++ dec_of_N code ++ [SP] ++ msg ++ CRLF
-  ++ header_line (server_name, server) ++ header_line (date_name, date)
-  ++ concat (map header_line headers)
-  ++ (if chunked then header_line (te_name, te_value) else [])
-  ++ header_line (conn_name, conn_value) ++ CRLF.
+  ++ concat (map (emit_item proto server date code msg headers chunked) head_plan).
 
 (* everything run_wsgi writes for an application that calls start_response(status, headers) and
    produces the body pieces (through write() and/or by iteration, in this order);
@@ -233,50 +245,15 @@ Definition unquote (s : str) : str := utf8_decode_replace (pct_decode s).
 
 Definition is_empty (s : str) : bool := match s with [] => true | _ => false end.
 
-Fixpoint replace_char (a b : N) (s : str) : str :=
-  match s with [] => [] | c :: r => (if c =? a then b else c) :: replace_char a b r end.
-Fixpoint remove_crlf (s : str) : str :=
-  match s with
-  | [] => []
-  | c :: r => match r with
-              | d :: r' => if (c =? CR) && (d =? LF) then remove_crlf r' else c :: remove_crlf r
-              | [] => [c]
-              end
-  end.
-
-Fixpoint env_get (k : str) (env : list (str * str)) : option str :=
-  match env with [] => None | (k', v) :: r => if list_eqb k k' then Some v else env_get k r end.
-Fixpoint env_set (k v : str) (env : list (str * str)) : list (str * str) :=
-  match env with
-  | [] => [(k, v)]
-  | (k', v') :: r => if list_eqb k k' then (k, v) :: r else (k', v') :: env_set k v r
-  end.
-
-Definition HTTP_ : str := [72; 84; 84; 80; 95].
-Definition COMMA : N := 44.
-Definition dash_c : N := match env_dash with c :: _ => c | [] => 0 end.
-Definition under_c : N := match env_under with c :: _ => c | [] => 0 end.
-Definition skip_c : N := match env_skip_char with c :: _ => c | [] => 0 end.
-
-(* the header loop of make_environ over self.headers.items() (ASCII header names) *)
+(* the header loop of make_environ over self.headers.items(): the generated loop body folded over the headers *)
 Fixpoint env_headers (hs : list (str * str)) (env : list (str * str)) : list (str * str) :=
   match hs with
   | [] => env
-  | (key, value) :: r =>
-    if mem skip_c key then env_headers r env
-    else
-      let key := replace_char dash_c under_c (map ascii_upper key) in
-      let value := remove_crlf value in
-      if negb (mem_str key env_exempt)
-      then let key := HTTP_ ++ key in
-           let value := match env_get key env with Some old => old ++ [COMMA] ++ value | None => value end in
-           env_headers r (env_set key value env)
-      else env_headers r (env_set key value env)
+  | (key, value) :: r => env_headers r (env_header_step_gen key value env)
   end.
 
+Definition HTTP_ : str := [72; 84; 84; 80; 95].
 Definition HTTP_HOST : str := HTTP_ ++ [72; 79; 83; 84].
-Definition HTTP_TRANSFER_ENCODING : str :=
-  HTTP_ ++ [84; 82; 65; 78; 83; 70; 69; 82; 95; 69; 78; 67; 79; 68; 73; 78; 71].
 
 Record environ := { en_path_info : str; en_query_string : str; en_request_uri : str;
                     en_headers : list (str * str); en_chunked : bool }.
@@ -286,15 +263,10 @@ Definition make_environ (target : str) (headers : list (str * str)) : option env
   match urlsplit target with
   | None => None
   | Some u =>
-    let path_info :=
-      if is_empty (u_scheme u) && negb (is_empty (u_netloc u))
-      then SLASH :: u_netloc u ++ u_path u else u_path u in
+    let path_info := path_info_gen (u_scheme u) (u_netloc u) (u_path u) in
     let env := env_headers headers [] in
-    let chunked := match env_get HTTP_TRANSFER_ENCODING env with
-                   | Some v => list_eqb (lower (strip uni_ws v)) env_chunked
-                   | None => false end in
-    let env := if negb (is_empty (u_scheme u)) && negb (is_empty (u_netloc u))
-               then env_set HTTP_HOST (u_netloc u) env else env in
+    let chunked := chunked_request_gen env in
+    let env := host_override_gen (u_scheme u) (u_netloc u) env in
     Some {| en_path_info := wsgi_encoding_dance (unquote path_info);
             en_query_string := wsgi_encoding_dance (u_query u);
             en_request_uri := wsgi_encoding_dance target;
@@ -371,3 +343,37 @@ Fixpoint pct_enc (keep : N -> bool) (b : bytes) : str :=
   | c :: r => if keep c && lit_ok c then c :: pct_enc keep r
               else PCT :: upper_hex_digit (c / 16) :: upper_hex_digit (c mod 16) :: pct_enc keep r
   end.
+
+(* --- request headers as the application must see them (spec) *)
+Definition CONTENT_TYPE : str := [67; 79; 78; 84; 69; 78; 84; 95; 84; 89; 80; 69].
+Definition CONTENT_LENGTH : str := [67; 79; 78; 84; 69; 78; 84; 95; 76; 69; 78; 71; 84; 72].
+Definition exempt (K : str) : bool := mem_str K [CONTENT_TYPE; CONTENT_LENGTH].
+(* NAME upper-cased with dashes turned into underscores; values lose folded line breaks *)
+Definition norm_name (k : str) : str := str_replace (str_upper k) [45] [95].
+Definition clean_value (v : str) : str := str_replace v [13; 10] [].
+(* a name containing an underscore is dropped (it would alias a dashed name) *)
+Definition hidden (k : str) : bool := str_contains [95] k.
+Definition env_key (k : str) : str := let K := norm_name k in if exempt K then K else HTTP_ ++ K.
+(* the values the client sent under names that map to the environ key E, in order *)
+Definition sent_values (E : str) (hs : list (str * str)) : list str :=
+  map (fun kv => clean_value (snd kv))
+      (filter (fun kv => negb (hidden (fst kv)) && list_eqb (env_key (fst kv)) E) hs).
+Definition join_step (cur : option str) (v : str) : option str :=
+  Some (match cur with Some o => o ++ [44] ++ v | None => v end).
+Definition join_comma (vs : list str) : option str := fold_left join_step vs None.       (* None when empty *)
+Definition last_value (vs : list str) : option str := fold_left (fun _ v => Some v) vs None.
+
+(* --- the head of a response, byte for byte (spec) *)
+Definition response_head_spec (proto : str) (expect : option str) (server date : str) (code : N) (msg : str)
+                              (headers : list (str * str)) (chunked : bool) : bytes :=
+  (match expect with
+   | Some v => if list_eqb (strip uni_ws (lower v)) [49; 48; 48; 45; 99; 111; 110; 116; 105; 110; 117; 101]
+               then [72; 84; 84; 80; 47; 49; 46; 49; 32; 49; 48; 48; 32; 67; 111; 110; 116; 105; 110; 117; 101; 13; 10; 13; 10]
+               else []
+   | None => [] end)
+  ++ proto ++ [SP] ++ dec_of_N code ++ [SP] ++ msg ++ CRLF
+  ++ header_line ([83; 101; 114; 118; 101; 114], server) ++ header_line ([68; 97; 116; 101], date)
+  ++ concat (map header_line headers)
+  ++ (if chunked then header_line ([84; 114; 97; 110; 115; 102; 101; 114; 45; 69; 110; 99; 111; 100; 105; 110; 103],
+                                   [99; 104; 117; 110; 107; 101; 100]) else [])
+  ++ header_line ([67; 111; 110; 110; 101; 99; 116; 105; 111; 110], [99; 108; 111; 115; 101]) ++ CRLF.
